@@ -34,6 +34,8 @@ func (c *child) canonical(kind string) {
 		c.canonReorder()
 	case "canon-dma-stale":
 		c.canonStale()
+	case "canon-emu-rehome", "canon-dma-rehome", "canon-tmagic-rehome":
+		c.canonRehome()
 	default:
 		c.rec.Inconclusive("unknown canonical case " + kind)
 	}
@@ -494,6 +496,168 @@ func (c *child) canonReorder() {
 	th.fq = noForce
 	th.verify(x, 0, len(x.shadow), 1, -1)
 	th.verify(y, 0, len(y.shadow), 0, -1)
+	th.drainAll()
+	c.flush()
+}
+
+// canonRehome: re-homing in mid-history (rehome.go), fixed histories. Buffers
+// A (4 pages = 64 work-groups of the element kernel), B (8 pages, distributed
+// when there are several GPUs), C (one page + 5 bytes: 16 work-groups) and a
+// source / scratch buffer S; queue 0 launches on GPU 1, queue 1 on GPU 2 (if
+// there is one). Every case: kernels read and write the range, a D2H observes
+// them, Remap / Distribute gives (part of) it new frames, the re-homed pages
+// are rewritten (H2D pieces, the driver's copy kernel, or both), kernels run
+// over it again on the SAME queue - one grid of >= 64 work-groups, or a
+// 16-work-group grid three times after it was launched four times before (so
+// that each of the 64 compute units has had a work-group in the page) - and
+// every result is read back.
+func (c *child) canonRehome() {
+	if c.path == "dma" {
+		c.canonRehomeDMA()
+		return
+	}
+	th := c.canonThread()
+	ng := c.cfg.NGPU
+	const ps = pageSize
+	kindB := "plain"
+	if ng > 1 {
+		kindB = "dist"
+	}
+	ls := layoutSpec{Sizes: []int{64, 4 * ps, 100, 8 * ps, ps + 5, 8 * ps, 64},
+		Kinds: []string{"plain", "plain", "plain", kindB, "plain", "plain", "plain"}, GPUs: []int{1, 1, ng, 1, 1, ng, 1}, NQ: 2}
+	m := c.buildCtx(ls, th.r, nil)
+	th.ms = []*ctxModel{m}
+	th.initArena(m)
+	A, B, C, S := m.bufs[1], m.bufs[3], m.bufs[4], m.bufs[5]
+	far := ng
+	rev := []int{}
+	for g := ng; g >= 1; g-- {
+		rev = append(rev, g)
+	}
+	none := rehomeSpec{Src: -1, CopyTo: -1}
+	var cases []rehomeSpec
+	add := func(f func(sp *rehomeSpec)) {
+		sp := none
+		f(&sp)
+		cases = append(cases, sp)
+	}
+	// 1: second half of A to the far GPU; whole-A grids (64 work-groups), with a 5-work-group kernel in between
+	add(func(sp *rehomeSpec) {
+		sp.Off, sp.N, sp.How, sp.GPUs = A.Off+2*ps, 2*ps, "remap", []int{far}
+		sp.Q, sp.KOff, sp.KE, sp.Pre, sp.Redef, sp.Post = 0, A.Off, A.Size/4, 1, "h2d", 3
+		sp.ShiftOff, sp.ShiftE = S.Off, 5*64
+	})
+	// 2: the one-page range, same GPU (a new frame all the same); 16 work-groups, 4 launches before, 3 after
+	add(func(sp *rehomeSpec) {
+		sp.Off, sp.N, sp.How, sp.GPUs = C.Off, ps, "remap", []int{1}
+		sp.Q, sp.KOff, sp.KE, sp.Pre, sp.Redef, sp.Post = 0, C.Off, ps/4, 4, "h2d", 3
+	})
+	// 3: all of B re-distributed (reverse GPU order), first written by the copy kernel and H2D, then copied to S by a kernel
+	add(func(sp *rehomeSpec) {
+		sp.Off, sp.N, sp.How, sp.GPUs = B.Off, 8*ps, "distribute", rev
+		if ng == 1 {
+			sp.How, sp.GPUs = "remap", []int{1}
+		}
+		sp.Q, sp.KOff, sp.KE, sp.Pre, sp.Redef, sp.Src, sp.Post, sp.CopyTo = 1, B.Off, B.Size/4, 1, "mixed", S.Off, 1, S.Off
+	})
+	// 4: all of A back to GPU 1 with no kernel in front (the history has touched it), written by the copy kernel only
+	add(func(sp *rehomeSpec) {
+		sp.Off, sp.N, sp.How, sp.GPUs = A.Off, 4*ps, "remap", []int{1}
+		sp.Q, sp.KOff, sp.KE, sp.Pre, sp.Redef, sp.Src, sp.Post = 0, A.Off, A.Size/4, 0, "d2d", S.Off, 2
+		sp.ShiftOff, sp.ShiftE, sp.CopyTo, sp.OtherQ = C.Off, 5*64, S.Off+4*ps, true
+	})
+	{
+		// 5: one page in the middle of A, kernels on queue 1
+		add(func(sp *rehomeSpec) {
+			sp.Off, sp.N, sp.How, sp.GPUs = A.Off+ps, ps, "remap", []int{far}
+			sp.Q, sp.KOff, sp.KE, sp.Pre, sp.Redef, sp.Post, sp.OtherQ = 1, A.Off, A.Size/4, 1, "h2d", 2, true
+		})
+		// 6: A distributed; 63-work-group grids that start 20 bytes into the buffer
+		add(func(sp *rehomeSpec) {
+			sp.Off, sp.N, sp.How, sp.GPUs = A.Off, 4*ps, "distribute", []int{far, 1}
+			if ng == 1 {
+				sp.How, sp.GPUs = "remap", []int{1}
+			}
+			sp.Q, sp.KOff, sp.KE, sp.Pre, sp.Redef, sp.Src, sp.Post = 0, A.Off+20, 63*64, 1, "mixed", S.Off, 3
+			sp.ShiftOff, sp.ShiftE = S.Off+4*ps, 3*64
+		})
+		// 7: both pages of C (the second one holds 5 requested bytes)
+		add(func(sp *rehomeSpec) {
+			sp.Off, sp.N, sp.How, sp.GPUs = C.Off, 2*ps, "remap", []int{far}
+			sp.Q, sp.KOff, sp.KE, sp.Pre, sp.Redef, sp.Post = 1, C.Off, ps/4, 4, "h2d", 3
+			sp.ShiftOff, sp.ShiftE = A.Off, 64
+		})
+	}
+	for _, sp := range cases {
+		if c.path == "tmagic" {
+			sp.KE = 0
+		}
+		th.fq = noForce
+		th.rehomeMotif(m, sp)
+		c.count("canonical_cases|rehome-"+c.path, 1)
+	}
+	th.fq = noForce
+	th.verify(m, 0, len(m.shadow), 1, -1)
+	th.drainAll()
+	c.flush()
+}
+
+// canonRehomeDMA: the same on the timing platform with the DMA copy path
+// (>= 2 GPUs). Driver.Remap / Distribute do not shoot down the GPUs' TLBs, so
+// the history is split over two contexts (= two processes):
+//
+//	X: every re-homed page is filled and read back by host copies but has not
+//	   been touched by a kernel on the GPU that uses it afterwards (no TLB of
+//	   that GPU can hold its old translation): must hold, and does;
+//	Y: case 1 of the emulation battery (kernel over A on GPU 1, Remap of A's
+//	   second half, H2D, the same kernel on GPU 1 again, D2H).
+func (c *child) canonRehomeDMA() {
+	th := c.canonThread()
+	ng := c.cfg.NGPU
+	const ps = pageSize
+	far := ng
+	rev := []int{}
+	for g := ng; g >= 1; g-- {
+		rev = append(rev, g)
+	}
+	ls := layoutSpec{Sizes: []int{64, 4 * ps, 100, 8 * ps, ps + 5, 8 * ps, 64},
+		Kinds: []string{"plain", "plain", "plain", "dist", "plain", "plain", "plain"}, GPUs: []int{1, 1, ng, 1, 1, ng, 1}, NQ: 2}
+	x := c.buildCtx(ls, th.r, nil)
+	y := c.buildCtx(layoutSpec{Sizes: []int{64, 4 * ps, 64, 2 * ps}, Kinds: []string{"plain", "plain", "plain", "plain"}, GPUs: []int{1, 1, 1, 1}, NQ: 2}, th.r, nil)
+	th.ms = []*ctxModel{x, y}
+	th.initArena(x)
+	th.initArena(y)
+	qOn := func(m *ctxModel, g int) int {
+		for i, v := range m.qGPU {
+			if v == g {
+				return i
+			}
+		}
+		panic("harness: no queue on that GPU")
+	}
+	A, B, C, S := x.bufs[1], x.bufs[3], x.bufs[4], x.bufs[5]
+	xs := []rehomeSpec{
+		// second half of A to the far GPU before any kernel has touched A; then 64-work-group grids on GPU 1, copy kernel A -> S
+		{Off: A.Off + 2*ps, N: 2 * ps, How: "remap", GPUs: []int{far}, Q: qOn(x, 1), KOff: A.Off, KE: A.Size / 4, Redef: "h2d", Src: -1,
+			Post: 2, ShiftOff: S.Off + 4*ps, ShiftE: 5 * 64, CopyTo: S.Off},
+		// all of B re-distributed in reverse GPU order, first written by the copy kernel (from S) and H2D; 128-work-group grid on GPU 2
+		{Off: B.Off, N: 8 * ps, How: "distribute", GPUs: rev, Q: qOn(x, far), KOff: B.Off, KE: B.Size / 4, Redef: "mixed", Src: S.Off, Post: 1, CopyTo: -1, OtherQ: true},
+		// C's first page: kernels on GPU 1 have used it (4 launches of 16 work-groups); after the re-homing only GPU 2 touches it
+		{Off: C.Off, N: ps, How: "remap", GPUs: []int{far}, Q: qOn(x, 1), PostQ1: qOn(x, far) + 1, KOff: C.Off, KE: ps / 4, Pre: 4, Redef: "h2d", Src: -1, Post: 3, CopyTo: -1},
+	}
+	for _, sp := range xs {
+		th.fq = noForce
+		th.rehomeMotif(x, sp)
+		c.count("canonical_cases|rehome-dma", 1)
+	}
+	th.fq = noForce
+	th.verify(x, 0, len(x.shadow), 1, -1)
+	th.drainAll()
+	// Y: the page is used by GPU 1 before and after it is re-homed
+	YA := y.bufs[1]
+	th.rehomeMotif(y, rehomeSpec{Off: YA.Off + 2*ps, N: 2 * ps, How: "remap", GPUs: []int{far}, Q: qOn(y, 1), KOff: YA.Off, KE: YA.Size / 4,
+		Pre: 1, Redef: "h2d", Src: -1, Post: 1, CopyTo: -1})
+	c.count("canonical_cases|rehome-dma-used-by-same-gpu", 1)
 	th.drainAll()
 	c.flush()
 }
